@@ -7,6 +7,7 @@ import (
 	"fmt"
 	"os"
 	"path/filepath"
+	"regexp"
 	"sort"
 	"strings"
 	"time"
@@ -113,7 +114,9 @@ func (r *Report) Trivial(rule, site, pos, detail string) {
 	r.add(rule, site, pos, Discharged, false, detail)
 }
 func (r *Report) Audit(rule, site, pos, reason string) { r.add(rule, site, pos, Audited, true, reason) }
-func (r *Report) Fail(rule, site, pos, detail string)  { r.add(rule, site, pos, Violation, true, detail) }
+func (r *Report) Fail(rule, site, pos, detail string) {
+	r.add(rule, site, pos, Violation, true, detail)
+}
 func (r *Report) Undecided(rule, site, pos, detail string) {
 	r.add(rule, site, pos, Undecided, true, detail)
 }
@@ -145,11 +148,13 @@ func (r *Report) Instances(rule, what string, got, floor int) {
 }
 
 func (r *Report) Note(format string, a ...any) { r.notes = append(r.notes, fmt.Sprintf(format, a...)) }
-func (r *Report) Count(k string, n int)         { r.counts[k] += n }
+func (r *Report) Count(k string, n int)        { r.counts[k] += n }
 
 // ---- known findings ----
 
 type knownFinding struct{ prop, rule, site, what string }
+
+var knownRe = regexp.MustCompile(`^known:\s+property=(\S+)\s+rule=(\S+)\s+site=(.*?)\s+--\s+(.*)$`)
 
 func loadKnown(path string) ([]knownFinding, int, error) {
 	f, err := os.Open(path)
@@ -171,23 +176,11 @@ func loadKnown(path string) ([]knownFinding, int, error) {
 			continue
 		}
 		k := knownFinding{}
-		rest := strings.TrimSpace(strings.TrimPrefix(line, "known:"))
-		what := ""
-		if i := strings.Index(rest, " -- "); i >= 0 {
-			what = rest[i+4:]
-			rest = rest[:i]
+		m := knownRe.FindStringSubmatch(line)
+		if m == nil {
+			continue
 		}
-		for _, f := range strings.Fields(rest) {
-			switch {
-			case strings.HasPrefix(f, "property="):
-				k.prop = f[9:]
-			case strings.HasPrefix(f, "rule="):
-				k.rule = f[5:]
-			case strings.HasPrefix(f, "site="):
-				k.site = f[5:]
-			}
-		}
-		k.what = what
+		k.prop, k.rule, k.site, k.what = m[1], m[2], m[3], m[4]
 		out = append(out, k)
 	}
 	return out, fixed, sc.Err()
@@ -316,21 +309,21 @@ func (r *Report) Finish() int {
 	}
 	sort.Strings(ruleDesc)
 	cov := map[string]any{
-		"explanation":         r.Explain,
-		"rule":                "obligations are rule instances enumerated from /repo's type-checked source (SSA); an obligation is non-trivial when its verdict needed at least one dominating fact, CFG edge, table row or call-graph path; distinct = distinct (rule, construct) keys. Rules: " + strings.Join(ruleDesc, " | "),
-		"evaluations":         len(r.obls),
-		"distinct_nontrivial": len(nontriv),
-		"obligations":         totalObl,
-		"discharged":          totalDis,
-		"per_rule":            r.rules,
-		"counts":              r.counts,
-		"configs":             r.configs,
-		"samples":             samples,
-		"controls":            r.controls,
-		"known_findings":      nknown,
+		"explanation":                          r.Explain,
+		"rule":                                 "obligations are rule instances enumerated from /repo's type-checked source (SSA); an obligation is non-trivial when its verdict needed at least one dominating fact, CFG edge, table row or call-graph path; distinct = distinct (rule, construct) keys. Rules: " + strings.Join(ruleDesc, " | "),
+		"evaluations":                          len(r.obls),
+		"distinct_nontrivial":                  len(nontriv),
+		"obligations":                          totalObl,
+		"discharged":                           totalDis,
+		"per_rule":                             r.rules,
+		"counts":                               r.counts,
+		"configs":                              r.configs,
+		"samples":                              samples,
+		"controls":                             r.controls,
+		"known_findings":                       nknown,
 		"fixed_entries_in_known_findings_file": nfixed,
-		"notes":               r.notes,
-		"exhaustive":          false,
+		"notes":                                r.notes,
+		"exhaustive":                           false,
 	}
 	ev := map[string]any{
 		"property_id": r.Prop,
